@@ -6,7 +6,8 @@ import OV.Lemmas.C06SolveC
 -/
 namespace OV.C06
 
-theorem matchOutputNodes_complete (E : Env) (A : Assign) (hno : E.p.noOr = true) (htopo : E.p.topo) :
+theorem matchOutputNodes_complete (E : Env) (A : Assign) (hno : E.p.noOr = true) (htopo : E.p.topo)
+    (hnc : E.fixF2 = false ∨ NamedVarsUnchecked E.p) :
     ∀ (l : List (NPId × NodeId)) (c : Partial), SLe c A →
       (∀ np n, (np, n) ∈ l → SatN E A np n) →
       ∃ c', matchOutputNodes E l [c] = (true, [c']) ∧ SLe c' A := by
@@ -18,7 +19,7 @@ theorem matchOutputNodes_complete (E : Env) (A : Assign) (hno : E.p.noOr = true)
     obtain ⟨np, n⟩ := hd
     have hs := hall np n (List.mem_cons_self ..)
     obtain ⟨hb, _⟩ := satN_bounds hs
-    obtain ⟨c1, e1, s1⟩ := matchNode_complete E A hno htopo E.p.fuel np n c (Nat.lt_succ_of_lt hb) hs h
+    obtain ⟨c1, e1, s1⟩ := matchNode_complete E A hno htopo hnc E.p.fuel np n c (Nat.lt_succ_of_lt hb) hs h
     unfold matchOutputNodes
     simp only [e1, Bool.not_true, Bool.false_eq_true, if_false]
     exact ih c1 s1 (fun np' n' hm => hall np' n' (List.mem_cons_of_mem _ hm))
@@ -127,7 +128,8 @@ where
 /-- `_multi_match` succeeds on a candidate combination that `A` satisfies and that covers every
 output node -/
 theorem multiMatch_ok (E : Env) (A : Assign) (combo : List NodeId)
-    (hno : E.p.noOr = true) (htopo : E.p.topo) (har : E.fixF1 = true ∨ OutputArityOk E.p E.g)
+    (hno : E.p.noOr = true) (htopo : E.p.topo) (hnc : E.fixF2 = false ∨ NamedVarsUnchecked E.p)
+    (har : E.fixF1 = true ∨ OutputArityOk E.p E.g)
     (houts : OutputsOfOutputNodes E.p) (hlen : E.p.outputNodes.length ≤ combo.length)
     (hsat : ∀ np n, (np, n) ∈ E.p.outputNodes.zip combo → SatN E A np n) :
     (multiMatch E false combo).ok = true ∧
@@ -135,7 +137,7 @@ theorem multiMatch_ok (E : Env) (A : Assign) (combo : List NodeId)
       (∀ k x, (k, x) ∈ (multiMatch E false combo).vb → A.leaf k = some x) := by
   have s0 : SLe ({} : Partial) A :=
     ⟨rfl, fun _ _ h => by simp at h, fun _ _ h => by simp at h, fun _ _ h => by simp at h⟩
-  obtain ⟨c, e, s⟩ := matchOutputNodes_complete E A hno htopo _ {} s0 hsat
+  obtain ⟨c, e, s⟩ := matchOutputNodes_complete E A hno htopo hnc _ {} s0 hsat
   have inv0 : Inv E ({} : Partial) [] := by intro q m hq; simp at hq
   obtain ⟨c', r1, _, _, s1⟩ := matchOutputNodes_spec E (E.p.noOr_dispOk hno) (E.p.topo_topoDeep hno htopo) har
     _ {} _ e inv0 rfl
@@ -171,7 +173,8 @@ theorem multiMatch_ok (E : Env) (A : Assign) (combo : List NodeId)
   exact ⟨s.ok, s.n, s.v⟩
 
 theorem matcher_complete_multi (E : Env) (A : Assign) (root : NodeId)
-    (hno : E.p.noOr = true) (htopo : E.p.topo) (har : E.fixF1 = true ∨ OutputArityOk E.p E.g)
+    (hno : E.p.noOr = true) (htopo : E.p.topo) (hnc : E.fixF2 = false ∨ NamedVarsUnchecked E.p)
+    (har : E.fixF1 = true ∨ OutputArityOk E.p E.g)
     (houts : OutputsOfOutputNodes E.p) (hid : LaterOutputsIdentified E.p) (hov : NoOverloads E.g)
     (hinst : Instance E root A) :
     ∃ combo, combo ∈ combos E root ∧ (multiMatch E false combo).ok = true ∧
@@ -201,7 +204,7 @@ theorem matcher_complete_multi (E : Env) (A : Assign) (root : NodeId)
   have hlen : E.p.outputNodes.length ≤ (root :: ns).length := by
     simp only [List.length_cons, hnsl, List.length_tail]
     omega
-  obtain ⟨hok, _, _⟩ := multiMatch_ok E A (root :: ns) hno htopo har houts hlen hsat
+  obtain ⟨hok, _, _⟩ := multiMatch_ok E A (root :: ns) hno htopo hnc har houts hlen hsat
   have hmem : (root :: ns) ∈ product ([root] :: candidatesRest E E.p.outputNodes.tail false) := by
     simp only [product, List.flatMap_cons, List.flatMap_nil, List.append_nil, List.mem_map]
     exact ⟨ns, hns, rfl⟩
@@ -244,11 +247,12 @@ theorem checksOk_valueChecks (p : GPat) (hc : p.checksOk = true) (houts : Output
 /-- `Pattern.match` reports a match on every instance of an OR-free multi-output pattern outside
 the region of finding C06-F5, when no opaque checker rejects -/
 theorem patternMatch_complete_multi (E : Env) (A : Assign) (root : NodeId)
-    (hno : E.p.noOr = true) (htopo : E.p.topo) (har : E.fixF1 = true ∨ OutputArityOk E.p E.g)
+    (hno : E.p.noOr = true) (htopo : E.p.topo) (hnc : E.fixF2 = false ∨ NamedVarsUnchecked E.p)
+    (har : E.fixF1 = true ∨ OutputArityOk E.p E.g)
     (houts : OutputsOfOutputNodes E.p) (hid : LaterOutputsIdentified E.p) (hov : NoOverloads E.g)
     (hchk : E.p.checksOk = true) (hinst : Instance E root A) :
     (patternMatch E root false).isSome = true := by
-  obtain ⟨_, _, _, hok⟩ := matcher_complete_multi E A root hno htopo har houts hid hov hinst
+  obtain ⟨_, _, _, hok⟩ := matcher_complete_multi E A root hno htopo hnc har houts hid hov hinst
   unfold patternMatch
   have h1 : ∀ r : Result, checksPass E.p r = true := by
     intro r
